@@ -12,6 +12,15 @@ almost never intended in this code base; the few instances on the reviewed tree 
   narrow-accumulate   std::accumulate seeded with an int (float) literal whose result is used as a wider type
   unused-parameter    a named parameter of a member function that is never read (a configuration argument silently dropped)
   swapped-dealloc     a freshly allocated local pointer is swapped with another pointer and then released with its own size
+  narrowed-return     a wider local is returned through a narrower integral return type (the count assembled in a uint32_t
+                      accumulator leaves the helper as uint16_t)
+  narrowed-shift      `T x = a << n` with T narrower than the shifted value and no bound on `a << n` that fits T (1 << lg_k in a
+                      16-bit local wraps to 0 at lg_k >= 16)
+  cross-object-ratio  in a member function that takes another object of its own class, a quotient whose one side reads only the
+                      other object and whose other side reads only this object (an average of the source computed with the
+                      destination's count)
+  swapped-arguments   a call of a library function in which an argument carries the name of ANOTHER parameter of the callee while
+                      that parameter's own position holds something else (`z(n, compression)` for `z(compression, n)`)
   stale-cursor        a loop steps one pointer cursor while it dereferences a second pointer (the start of another array) that
                       is never advanced
 Each lint carries a positive control that must be recognised on every run."""
@@ -273,6 +282,156 @@ def stale_cursor_nodes(fn):
     return out
 
 
+def _narrowing(e):
+    """(cast, operand) if e is an implicit integral conversion of a non-constant operand to a narrower type"""
+    x = e
+    while isinstance(x, dict) and x.get("k") == "Paren":
+        x = x.get("e")
+    if isinstance(x, dict) and x.get("k") == "Cast" and x.get("impl") and x.get("ck") == "IntegralCast":
+        op = x.get("e")
+        while isinstance(op, dict) and (op.get("k") == "Paren" or (op.get("k") == "Cast" and op.get("impl") and op.get("ck") in ("LValueToRValue", "NoOp"))):
+            op = op.get("e")
+        if isinstance(op, dict) and op.get("sz") and x.get("sz") and op["sz"] > x["sz"] and "v" not in op:
+            return x, op
+    return None
+
+
+def _ubound(e, sa, depth=0):
+    """an upper bound of a non-negative integral expression from literals, masks and single-assignment locals; None = unknown"""
+    e = strip_all(e) if isinstance(e, dict) else e
+    if not isinstance(e, dict) or depth > 6:
+        return None
+    if isinstance(e.get("v"), int) and not isinstance(e.get("v"), bool):
+        return e["v"] if e["v"] >= 0 else None
+    if e.get("k") == "Bin" and e.get("op") == "&":
+        a, b = _ubound(e["l"], sa, depth + 1), _ubound(e["r"], sa, depth + 1)
+        c = [x for x in (a, b) if x is not None]
+        return min(c) if c else None
+    if e.get("k") == "Bin" and e.get("op") == "<<":
+        a, b = _ubound(e["l"], sa, depth + 1), _ubound(e["r"], sa, depth + 1)
+        return (a << b) if a is not None and b is not None and b < 64 else None
+    if e.get("k") == "Bin" and e.get("op") in ("+", "*", "|"):
+        a, b = _ubound(e["l"], sa, depth + 1), _ubound(e["r"], sa, depth + 1)
+        if a is None or b is None:
+            return None
+        return a + b if e["op"] in ("+", "|") else a * b
+    if e.get("k") == "Ref" and e.get("d") in sa:
+        return _ubound(sa[e["d"]], sa, depth + 1)
+    return None
+
+
+def narrowed_return_nodes(fn):
+    out = []
+
+    def v(n):
+        if n.get("k") == "Return" and n.get("e") is not None:
+            r = _narrowing(n["e"])
+            if r:
+                o = strip(r[1])
+                if o.get("k") == "Ref" and o.get("dk") == "local":
+                    out.append((n, o, r[0]))
+    walk(fn["body"], v)
+    return out
+
+
+def narrowed_shift_nodes(fn):
+    from astu import single_assignment_locals
+    out = []
+    sa = None
+
+    def v(n):
+        nonlocal sa
+        if n.get("k") == "Decl":
+            for var in n.get("vars", []):
+                if var.get("init") is None:
+                    continue
+                r = _narrowing(var["init"])
+                if not r:
+                    continue
+                op = strip(r[1])
+                if op.get("k") == "Bin" and op.get("op") == "<<" and "v" not in strip(op["r"]):
+                    if sa is None:
+                        sa = single_assignment_locals(fn) if fn.get("params") is not None else {}
+                    b = _ubound(op, sa)
+                    bits = 8 * (r[0].get("sz") or 0)
+                    if b is None or b >= (1 << bits):
+                        out.append((var, op, r[0]))
+    walk(fn["body"], v)
+    return out
+
+
+def cross_object_ratio_nodes(fn):
+    if not fn.get("rect"):
+        return []
+    cls = short(fn["rect"]).split("::")[-1]
+    pds = {p["d"] for p in fn.get("params") or [] if "d" in p and cls in (p.get("t") or "")}
+    if not pds:
+        return []
+
+    def owners(e):
+        o = set()
+
+        def v(n):
+            k = n.get("k")
+            if k == "Member" and n.get("isfield"):
+                b = strip_all(n.get("b") or {})
+                if b.get("k") == "This":
+                    o.add("this")
+                elif b.get("k") == "Ref" and b.get("d") in pds:
+                    o.add("other")
+                elif b.get("k") != "Member":
+                    o.add("x")
+            if k == "Call" and n.get("member"):
+                b = strip_all(n.get("obj") or {}) if n.get("obj") is not None else {"k": "This"}
+                if b.get("k") == "This":
+                    o.add("this")
+                elif b.get("k") == "Ref" and b.get("d") in pds:
+                    o.add("other")
+                elif not (b.get("k") == "Member" and b.get("isfield")):
+                    o.add("x")
+            if k == "Ref" and (n.get("dk") == "local" or (n.get("dk") == "param" and n.get("d") not in pds)):
+                o.add("x")
+        walk(e, v)
+        return o
+    out = []
+
+    def v(n):
+        if n.get("k") == "Bin" and n.get("op") == "/":
+            a, b = owners(n["l"]), owners(n["r"])
+            if {tuple(a), tuple(b)} == {("this",), ("other",)}:
+                out.append(n)
+    walk(fn["body"], v)
+    return out
+
+
+def swapped_argument_nodes(fn, by_pat):
+    out = []
+
+    def argname(a):
+        a = strip_all(a)
+        if a.get("k") == "Ref":
+            return (a.get("n") or "").strip("_")
+        if a.get("k") == "Member" and a.get("isfield"):
+            return (a.get("f") or "").strip("_")
+        return None
+
+    def v(n):
+        if n.get("k") in ("Call", "Construct") and n.get("cpat") in by_pat:
+            cal = by_pat[n["cpat"]]
+            ps = [(p.get("n") or "").strip("_") for p in cal.get("params") or []]
+            args = n.get("args") or []
+            if len(ps) != len(args) or len(ps) < 2:
+                return
+            names = [argname(a) for a in args]
+            for i in range(len(ps)):
+                for j in range(len(ps)):
+                    if i != j and names[i] and ps[j] and names[i] == ps[j] and names[i] != ps[i] and names[j] != ps[j]:
+                        if not any(x[0] is n for x in out):
+                            out.append((n, cal, i, j, names, ps))
+    walk(fn["body"], v)
+    return out
+
+
 def narrow_accumulate_nodes(fn):
     """std::accumulate / std::reduce / std::inner_product whose accumulator type comes from an `int` (or float) initial value although
     the result is used as a wider type: the partial sums are kept in the narrow type (truncated to 32 bits / to float / to an
@@ -335,6 +494,7 @@ def hazards(facts, fams=None):
     exc = _exc()
     out = []
     scanned = 0
+    by_pat_all = {f["pat"]: f for f in fns.values()}
     for pat, fn in sorted(fns.items()):
         if fn.get("body") is None or (fams and not any(pat.startswith(f) for f in fams)):
             continue
@@ -358,6 +518,14 @@ def hazards(facts, fams=None):
             found.append(("parallel-copy", base, items[0][0].get("loc"), "the element copied into position `%s` is read from different source positions (%s) in the statements of one block: parallel arrays (items / weights / marks) get out of step" % (di, ", ".join(sorted(set(x[1] for x in items))))))
         for n, rt, wt in narrow_accumulate_nodes(fn):
             found.append(("narrow-accumulate", base, n.get("loc"), "std::%s accumulates in `%s` (the type of its initial value) and the result is then widened to `%s`: the partial sums are truncated to the narrow type, whatever the element type and the binary operation return (e.g. a total weight above 2^31 wraps)" % (n.get("cname"), rt, wt)))
+        for n, cal, i, j, names, ps in swapped_argument_nodes(fn, by_pat_all):
+            found.append(("swapped-arguments", "%s->%s" % (base, cal["name"]), n.get("loc"), "`%s` is passed as argument %d of %s, whose parameter %d is called `%s` (parameter %d is `%s`): the arguments are in another order than the callee declares them" % (names[i], i, cal["name"], j, ps[j], i, ps[i])))
+        for n in cross_object_ratio_nodes(fn):
+            found.append(("cross-object-ratio", base, n.get("loc"), "`%s` divides a quantity of one object by a quantity of the other (this object and the argument of the same class): a per-item average, a rate or a fraction of the source is computed with the destination's count, so what is merged in is weighted wrongly whenever the two differ" % txt(n)))
+        for n, o, c in narrowed_return_nodes(fn):
+            found.append(("narrowed-return", "%s:%s" % (base, o.get("n")), n.get("loc"), "the local `%s` (%s) is returned through the narrower return type %s: the upper bits are dropped silently at the end of the helper (a count above %d comes back wrapped)" % (o.get("n"), o.get("t"), c.get("t"), (1 << (8 * (c.get("sz") or 1))) - 1)))
+        for var, op, c in narrowed_shift_nodes(fn):
+            found.append(("narrowed-shift", "%s:%s" % (base, var.get("n")), var.get("loc") or op.get("loc"), "`%s %s = %s`: the shifted value is computed in a wider type and stored in %d bits, and nothing bounds it below 2^%d (e.g. 1 << lg_k wraps to 0 for lg_k >= %d): whatever is derived from it (a table size, a standard error) is computed from the truncated value" % (var.get("t"), var.get("n"), txt(op), 8 * (c.get("sz") or 0), 8 * (c.get("sz") or 0), 8 * (c.get("sz") or 0))))
         if fn.get("rect"):
             used = set()
             walk(fn["body"], lambda x: used.add(x.get("d")) if x.get("k") == "Ref" else None)
@@ -380,7 +548,7 @@ def hazards(facts, fams=None):
                 out.append(ob("lint.hazard", k, loc or fn["pat"], "info", "reviewed instance: %s" % exc[k], fn["qname"]))
             else:
                 out.append(ob("lint.hazard", k, loc or fn["pat"], "violated", detail, fn["qname"]))
-    out.append(ob("lint.hazard", "all:functions-scanned", "", "discharged", "%d functions scanned for 11 hazard patterns" % scanned, ""))
+    out.append(ob("lint.hazard", "all:functions-scanned", "", "discharged", "%d functions scanned for 15 hazard patterns" % scanned, ""))
     # positive controls
     ctl_fn = {"body": {"k": "Block", "s": [
         {"k": "Expr", "e": {"k": "Call", "cname": "f", "callee": "datasketches::f", "args": [{"k": "Cast", "impl": True, "ck": "IntegralCast", "from": "unsigned long", "t": "unsigned int", "e": {"k": "Ref", "n": "seed", "d": 1, "dk": "param", "t": "unsigned long"}}]}},
